@@ -1378,10 +1378,15 @@ fn replacements_at(root: &Expr, index: usize) -> Vec<Expr> {
     match t {
         Expr::Lit(_) | Expr::Var(_) => {}
         _ => {
+            // small closed values of the common types: the ill-typed ones are refused by the
+            // real type checker when the candidate is validated
             subs.push(int(0));
-            subs.push(int(1));
-            subs.push(bool_(true));
+            subs.push(bool_(false));
             subs.push(unit());
+            subs.push(Expr::Lit(Lit::Str(String::new())));
+            subs.push(Expr::Lit(Lit::Byte(0)));
+            subs.push(Expr::Lit(Lit::Char('a')));
+            subs.push(Expr::Con("B".into(), vec![]));
         }
     }
     match t {
